@@ -509,6 +509,17 @@ theorem hist_streams_independent (st : HState K (Terms K × Terms K) (Gen K)) (s
         ∧ (hstep modelImpl st (.call s f x mem zero)).2.filts = st.filts) :=
   ⟨fun k => take_frame modelImpl st s k s' h, fun f x mem zero => call_frame modelImpl st s f x mem zero s' h⟩
 
+/-- **C04.11g** (`cascade_model_eq_spec`): the same filter object applied to its own (lazy) output,
+any number of times, each stage with its own memory: as coded = the difference equation applied
+stage by stage. -/
+theorem cascade_model_eq_spec (n d : List (Int × K)) (zero : K) (mems : List (Mem K)) (xs : List K) :
+    cascadeWith (fun m ys => filterCall n d m zero ys) mems xs
+      = cascadeWith (fun m ys => specCall n d m zero ys) mems xs := by
+  have : (fun (m : Mem K) ys => filterCall n d m zero ys) = (fun m ys => specCall n d m zero ys) := by
+    funext m ys
+    exact filterCall_eq_specCall n d m zero ys
+  rw [this]
+
 /-! non-vacuity of C04.11: the docstring filter `ZFilter([1, 1], [1, -1])` in histories -/
 
 /-- memory list overwritten between the call and the consumption: the stream starts from the
